@@ -13,12 +13,26 @@ The full property
 
     theorem schema_total (doc : Doc) : (Schema.new doc).panicSite? = none
 
-is FALSE for the code as it stands: nine classes of documents make `Schema::new` panic (F-16 … F-22
-in `known_findings.json`; a tenth, an enum constant in a default value — F-C19-1 — has been
-repaired and is a regression example now); each has a witness below (`panics_*`, replayed against the real
-`Schema::parse` by the harness).  It is proved as `schema_total_partial` under the decidable,
-syntactic guard `NoKnownSchemaTrigger`, and the acceptance equivalence `schema_accepts_iff` is
-proved in full for every document satisfying the guard.
+is still FALSE for the code as it stands, but only because of ONE remaining defect: a field or
+parameter type with more than 30 list levels makes `Type::from_type` panic (F-22, witness
+`panics_deep_field_type`); `enum`/`union`/`input` definitions hit `unimplemented!` and are outside the
+supported constructs (`panics_unsupported`).  It is proved as `schema_total_partial` under the
+decidable, syntactic guard `NoKnownSchemaTrigger` — no `enum`/`union`/`input` definition, no type with
+more than 30 list levels — and the acceptance equivalence `schema_accepts_iff` is proved in full for
+every document satisfying the guard.
+
+History.  A gap of validation observable only through the frontend (F-C10-5: a field declaring the same
+parameter twice was accepted and every query through it panicked in `make_edge_parameters`) is
+closed: `DuplicateFieldParameterDefinition`, rule `paramsDistinct`, and `accepted_params_distinct`
+below holds of EVERY accepted schema, no guard.  Eight more panic classes have been repaired in /repo and are typed errors now; their
+documents are covered by the theorems (the guard lost the corresponding clauses) and the old
+witnesses are kernel-checked regression examples below: a second `schema` block (F-16,
+`DuplicateSchemaDefinition`), no `schema` block (F-17, `MissingSchemaDefinition`), an undefined query
+type (F-18, `UndefinedQueryType`), an interface as query type (F-19, `QueryTypeNotAnObject`), a
+definition named like a built-in scalar (F-20, `BuiltinScalarRedefinition`), a directive defined twice
+(F-21, `DuplicateDirectiveDefinition`), a custom scalar defined twice (F-21b,
+`DuplicateScalarDefinition`), an enum constant in a default value (F-C19-1, an ordinary
+`InvalidDefaultValueForFieldParameter`).
 -/
 import TrustfallModel.Proofs.SchemaOrigins
 import TrustfallModel.Proofs.SchemaExamples
@@ -26,16 +40,16 @@ import TrustfallModel.Proofs.SchemaExamples
 namespace TF.C19
 open TF TF.SchemaDoc TF.SchemaDoc.Examples
 
-/-- **No panic** (partial): a document without any of the known panic triggers — exactly one
-`schema` block whose query type is a defined object type, no definition re-using a built-in scalar
-name, distinct directive names, distinct custom scalar names, no `enum`/`union`/`input`
-definition, no field or parameter type with more than 30 list levels — never makes `Schema::new` panic: not at the sites of the known triggers and not at
-any of the internal `unwrap`/index sites of `get_field_origins` (mod.rs:769, 781, 799, 805),
-`check_ambiguous_field_origins` (mod.rs:494) or the final `expect` (mod.rs:249). -/
+/-- **No panic** (partial): a document built from the supported constructs (no `enum`/`union`/`input`
+definition) in which no field or parameter type has more than 30 list levels never makes `Schema::new`
+panic — whatever else is wrong with it: any number of `schema` blocks, an undefined or interface
+query type, definitions named like built-in scalars, repeated directives / scalars / types / fields,
+and every violation of the validation rules.  Not at the first loop, not at the look-ups after it,
+and not at any of the internal `unwrap`/index sites of `get_field_origins` (mod.rs:769, 781, 799,
+805), `check_ambiguous_field_origins` (mod.rs:494) or the final `expect` (mod.rs:249). -/
 theorem schema_total_partial (doc : Doc) (h : NoKnownSchemaTrigger doc = true) :
     (Schema.new doc).panicSite? = none := by
-  obtain ⟨_, _, _, _, _, _, hres⟩ := schemaNew_spec h
-  rcases hres with ⟨s, hs, _⟩ | ⟨es, hs, _⟩ <;> simp [hs, Outcome.panicSite?]
+  rcases schemaNew_spec h with ⟨s, hs, _⟩ | ⟨es, hs, _⟩ <;> simp [hs, Outcome.panicSite?]
 
 /-- **Accepts exactly the valid schemas**: for a document without panic triggers, `Schema::new`
 returns `Ok(schema)` iff the documented rules hold — one `schema` block naming a defined object
@@ -44,20 +58,20 @@ and are implemented transitively; inherited fields are present and only narrowed
 same parameter names, parameter types only widened); every field type is a built-in scalar or a
 defined vertex type; no reserved `__` names; no edge into the root type; properties take no
 parameters; default values fit their parameter types; edge types are not lists of lists; the root
-type only has edges; no implementation cycle; no ambiguous field origin.  All sixteen conjuncts of
-`ValidSchema` are closed. -/
+type only has edges; no implementation cycle; no ambiguous field origin; no definition named like a
+built-in scalar; directives and custom scalars defined once; parameter names declared once per field.
+All twenty conjuncts of `ValidSchema` are closed. -/
 theorem schema_accepts_iff (doc : Doc) (h : NoKnownSchemaTrigger doc = true) :
     (∃ s, Schema.new doc = .ok (.ok s)) ↔ ValidSchema doc := by
-  obtain ⟨q, qd, hblocks, hq, hqi, hqb, hres⟩ := schemaNew_spec h
   constructor
   · rintro ⟨s, hs⟩
-    rcases hres with ⟨_, _, _, _, hd, hr⟩ | ⟨es, hes, _⟩
-    · exact validSchema_of_rules hblocks hq hqi hqb hd hr
+    rcases schemaNew_spec h with ⟨s', hs', hspec⟩ | ⟨es, hes, _⟩
+    · exact hspec.valid
     · rw [hs] at hes; cases hes
   · intro hv
-    rcases hres with ⟨s, hs, _⟩ | ⟨es, _, hne⟩
+    rcases schemaNew_spec h with ⟨s, hs, _⟩ | ⟨es, _, _, hno⟩
     · exact ⟨s, hs⟩
-    · exact absurd (rules_of_validSchema hblocks hq hv) hne
+    · exact absurd hv hno
 
 /-- The same equivalence for the decidable observer used by the driver. -/
 theorem accepts_iff (doc : Doc) (h : NoKnownSchemaTrigger doc = true) :
@@ -73,37 +87,33 @@ theorem accepts_iff (doc : Doc) (h : NoKnownSchemaTrigger doc = true) :
       | error e => simp [hs] at ha
   · rintro ⟨s, hs⟩; simp [hs]
 
-/-- Either a schema or a typed error: on a rejected document (without panic triggers) the error
-list is non-empty (`InvalidSchemaError::from(Vec)` asserts this, error.rs:150). -/
+/-- **A schema or a typed error**: on every document without panic triggers `Schema::new` returns
+`Ok(schema)` or `Err(errors)` with a non-empty error list (`InvalidSchemaError::from(Vec)` asserts
+this, error.rs) — and in the second case the document violates a documented rule. -/
 theorem rejects_with_errors (doc : Doc) (h : NoKnownSchemaTrigger doc = true) :
-    (∃ s, Schema.new doc = .ok (.ok s)) ∨ (∃ es, Schema.new doc = .ok (.error es) ∧ es ≠ []) := by
-  have hp := schema_total_partial doc h
-  cases hs : Schema.new doc with
-  | panic s => simp [hs, Outcome.panicSite?] at hp
-  | ok r =>
-    cases r with
-    | ok s => exact .inl ⟨s, rfl⟩
-    | error es =>
-      refine .inr ⟨es, rfl, ?_⟩
-      rintro rfl
-      -- `Err([])` is impossible: the error branch is only taken when `errors` is non-empty
-      unfold Schema.new at hs
-      split at hs
-      · cases hs
-      · cases hs
-      · split at hs
-        · cases hs
-        · split at hs
-          · cases hs
-          · split at hs
-            · cases hs
-            · split at hs
-              · cases hs
-              · split at hs
-                · split at hs <;> cases hs
-                · rename_i hne
-                  cases hs
-                  simp at hne
+    (∃ s, Schema.new doc = .ok (.ok s)) ∨
+    (∃ es, Schema.new doc = .ok (.error es) ∧ es ≠ [] ∧ ¬ ValidSchema doc) := by
+  rcases schemaNew_spec h with ⟨s, hs, _⟩ | ⟨es, hs, hne, hno⟩
+  · exact .inl ⟨s, hs⟩
+  · exact .inr ⟨es, hs, hne, hno⟩
+
+/-- The first loop of `Schema::new` and the look-ups right after it (where seven of the repaired
+panics were): on documents built from the supported constructs the loop never panics, and it returns
+early with an error exactly when the definitions read violate its requirements (`LoopOK`: at most one
+`schema` block, no type or scalar named like a built-in scalar, distinct directive, scalar and type
+names, distinct field names per type, distinct parameter names per field). -/
+theorem first_loop_total (doc : Doc) (h : doc.unsupportedNames = []) :
+    (∃ e, runLoop {} doc = .ok (.error e) ∧ ¬ LoopOK doc) ∨
+    (∃ st, runLoop {} doc = .ok (.ok st) ∧ StateOf doc st ∧ LoopOK doc) := by
+  simpa using runLoop_spec doc [] {} ⟨rfl, rfl, rfl, rfl⟩ LoopOK.nil h
+
+/-- **Every accepted schema has distinct parameter names per field** — for every document, no guard
+(the check sits in the first loop, before anything that can panic).  This is the assumption of the
+frontend's `make_edge_parameters` (`insert_or_error(..).unwrap()`, "Duplicates should have been caught
+at parse time"), which `Schema::new` did not establish before the repair of F-C10-5. -/
+theorem accepted_params_distinct (doc : Doc) (s : Schema) (h : Schema.new doc = .ok (.ok s)) :
+    ∀ t ∈ s.vertexTypes, ∀ f ∈ t.fields, (f.args.map (·.name)).Nodup :=
+  new_ok_paramsNodup h
 
 /-! ## Per-rule equivalences (each check of `Schema::new` against its rule) -/
 
@@ -148,34 +158,103 @@ theorem field_origins_cycle_iff {vts : List TypeDef} (hd : Distinct vts) :
     · rintro ⟨e, he⟩; rw [ho] at he; cases he
     · rintro ⟨t, ht⟩; exact absurd ht (hac t)
 
-/-! ## Witnesses: the full `schema_total` is false (one per panic class) -/
+/-! ## Witnesses: the full `schema_total` is false -/
 
 section Witnesses
 
-/-- F-16: a second `schema` block. -/
-theorem panics_dup_schema_block : (Schema.new (.schema "Q" :: small)).panicSite? = some .dupSchemaBlock := by decide
-/-- F-17: no `schema` block. -/
-theorem panics_no_schema_block : (Schema.new [tyQ [edgeA []], tyA]).panicSite? = some .noSchemaBlock := by decide
-/-- F-18: the query type is not defined (also when only a scalar has that name). -/
-theorem panics_query_type_undefined :
-    (Schema.new [.schema "Z", .scalar "Z", tyQ [edgeA []], tyA]).panicSite? = some .queryTypeUndefined := by decide
-/-- F-19: the query type is an interface. -/
-theorem panics_query_type_interface :
-    (Schema.new [.schema "Q", .type { name := "Q", isInterface := true, implements := [], fields := [edgeA []] }, tyA]).panicSite?
-      = some .queryTypeNotObject := by decide
-/-- F-20: a definition re-uses a built-in scalar name (`scalar Int`, `type Float {…}`). -/
-theorem panics_builtin_redefined : (Schema.new (small ++ [.scalar "Int"])).panicSite? = some .builtinRedefined := by decide
-/-- F-21: a directive defined twice. -/
-theorem panics_dup_directive :
-    (Schema.new (small ++ [.directive "d", .directive "d"])).panicSite? = some .dupDirective := by decide
-/-- F-21: a custom scalar defined twice. -/
-theorem panics_dup_scalar :
-    (Schema.new (small ++ [.scalar "Date", .scalar "Date"])).panicSite? = some .dupScalar := by decide
 /-- F-22: a field type with 31 list levels. -/
 theorem panics_deep_field_type :
     (Schema.new [.schema "Q", tyQ [edgeA []],
       .type { name := "A", isInterface := false, implements := [], fields := [⟨"x", deep 31, []⟩] }]).panicSite?
       = some .tooManyListLevels := by decide
+/-- `enum` / `union` / `input` definitions are outside the supported constructs (`unimplemented!`). -/
+theorem panics_unsupported : (Schema.new (small ++ [.unsupported "E"])).panicSite? = some .unsupportedDef := by decide
+
+/-- Hence the unguarded statement is false (through F-22, with supported constructs only). -/
+theorem schema_total_false : ¬ ∀ doc : Doc, (Schema.new doc).panicSite? = none := by
+  intro h
+  have := h [.schema "Q", tyQ [edgeA []],
+      .type { name := "A", isInterface := false, implements := [], fields := [⟨"x", deep 31, []⟩] }]
+  rw [panics_deep_field_type] at this
+  cases this
+
+/-- The witnesses violate the guard … -/
+example : NoKnownSchemaTrigger [.schema "Q", tyQ [edgeA []],
+    .type { name := "A", isInterface := false, implements := [], fields := [⟨"x", deep 31, []⟩] }] = false := by decide
+example : NoKnownSchemaTrigger (small ++ [.unsupported "E"]) = false := by decide
+/-- … and 30 list levels are still fine. -/
+example : accepts [.schema "Q", tyQ [edgeA []],
+    .type { name := "A", isInterface := false, implements := [], fields := [⟨"x", deep 30, []⟩] }] = true := by decide
+
+/- History — F-16, F-17, F-18, F-19, F-20, F-21, F-21b, repaired.  Until the repairs the first loop of
+`Schema::new` and the look-ups after it panicked on seven classes of documents; the witnesses were
+
+  theorem panics_dup_schema_block     : (Schema.new (.schema "Q" :: small)).panicSite? = some .dupSchemaBlock
+  theorem panics_no_schema_block      : (Schema.new [tyQ [edgeA []], tyA]).panicSite? = some .noSchemaBlock
+  theorem panics_query_type_undefined : (Schema.new [.schema "Z", .scalar "Z", …]).panicSite? = some .queryTypeUndefined
+  theorem panics_query_type_interface : (Schema.new [.schema "Q", interface Q …]).panicSite? = some .queryTypeNotObject
+  theorem panics_builtin_redefined    : (Schema.new (small ++ [.scalar "Int"])).panicSite? = some .builtinRedefined
+  theorem panics_dup_directive        : (Schema.new (small ++ [.directive "d", .directive "d"])).panicSite? = some .dupDirective
+  theorem panics_dup_scalar           : (Schema.new (small ++ [.scalar "Date", .scalar "Date"])).panicSite? = some .dupScalar
+
+and `NoKnownSchemaTrigger` demanded "exactly one `schema` block whose query type is a defined object
+type; no definition named like a built-in scalar; distinct directive names; distinct custom scalar
+names".  Each is an early `return Err(..)` with its own `InvalidSchemaError` variant now; the clauses
+are gone from the guard (so `schema_total_partial` / `schema_accepts_iff` / `rejects_with_errors` cover
+these documents) and the old witnesses are regression examples: -/
+example : rejectsWith (.schema "Q" :: small) = some [.duplicateSchemaDefinition] := by decide
+example : rejectsWith [tyQ [edgeA []], tyA] = some [.missingSchemaDefinition] := by decide
+example : rejectsWith [.schema "Z", .scalar "Z", tyQ [edgeA []], tyA] = some [.undefinedQueryType "Z"] := by decide
+example : rejectsWith [.schema "Q", .type { name := "Q", isInterface := true, implements := [], fields := [edgeA []] }, tyA]
+    = some [.queryTypeNotAnObject "Q"] := by decide
+example : rejectsWith (small ++ [.scalar "Int"]) = some [.builtinScalarRedefinition "Int"] := by decide
+example : rejectsWith (small ++ [obj "Float" [] [fx]]) = some [.builtinScalarRedefinition "Float"] := by decide
+example : rejectsWith (small ++ [.directive "d", .directive "d"]) = some [.duplicateDirectiveDefinition "d"] := by decide
+example : rejectsWith (small ++ [.scalar "Date", .scalar "Date"]) = some [.duplicateScalarDefinition "Date"] := by decide
+/-- The guard holds of every one of them … -/
+example : NoKnownSchemaTrigger (.schema "Q" :: small) = true := by decide
+example : NoKnownSchemaTrigger [tyQ [edgeA []], tyA] = true := by decide
+example : NoKnownSchemaTrigger [.schema "Z", .scalar "Z", tyQ [edgeA []], tyA] = true := by decide
+example : NoKnownSchemaTrigger (small ++ [.scalar "Int"]) = true := by decide
+example : NoKnownSchemaTrigger (small ++ [.directive "d", .directive "d"]) = true := by decide
+example : NoKnownSchemaTrigger (small ++ [.scalar "Date", .scalar "Date"]) = true := by decide
+/-- … so, by the equivalence, none of them is a `ValidSchema`. -/
+example : ¬ ValidSchema (.schema "Q" :: small) := fun h => absurd ((accepts_iff _ (by decide)).mpr h) (by decide)
+example : ¬ ValidSchema [tyQ [edgeA []], tyA] := fun h => absurd ((accepts_iff _ (by decide)).mpr h) (by decide)
+example : ¬ ValidSchema (small ++ [.scalar "Int"]) := fun h => absurd ((accepts_iff _ (by decide)).mpr h) (by decide)
+/-- Early returns keep the order of the code: the first offending definition decides, and an error
+of the first loop comes before the look-up of the query type; the built-in-name check comes first for
+every type-system definition, also an `enum`/`union`/`input` one. -/
+example : rejectsWith (.schema "Z" :: small ++ [.scalar "Date", .scalar "Date"]) = some [.duplicateSchemaDefinition] := by decide
+example : rejectsWith ([tyQ [edgeA []], tyA] ++ [.directive "d", .directive "d"])
+    = some [.duplicateDirectiveDefinition "d"] := by decide
+example : rejectsWith [.schema "Z", tyA, tyA] = some [.duplicateTypeDefinition "A"] := by decide
+example : rejectsWith (small ++ [.unsupported "Int"]) = some [.builtinScalarRedefinition "Int"] := by decide
+example : rejectsWith (small ++ [.scalar "Date", .scalar "Int", .scalar "Date"])
+    = some [.builtinScalarRedefinition "Int"] := by decide
+
+/- History — F-C10-5, repaired.  `type Root { A(x: Int, x: Int): A }` used to be ACCEPTED (the inheritance
+checks looked at the last declaration of a repeated parameter name, both showed up in introspection)
+and every query through such an edge made the frontend panic (`make_edge_parameters`,
+frontend/mod.rs:195).  The first loop rejects it now, per field before the field is inserted: -/
+example : rejectsWith [.schema "Q", tyQ [edgeA [⟨"x", intTy, none⟩, ⟨"x", intTy, none⟩]], tyA]
+    = some [.duplicateFieldParameterDefinition "Q" "a" "x"] := by decide
+example : NoKnownSchemaTrigger [.schema "Q", tyQ [edgeA [⟨"x", intTy, none⟩, ⟨"x", intTy, none⟩]], tyA] = true := by decide
+example : ¬ ValidSchema [.schema "Q", tyQ [edgeA [⟨"x", intTy, none⟩, ⟨"x", intTy, none⟩]], tyA] :=
+  fun h => absurd ((accepts_iff _ (by decide)).mpr h) (by decide)
+/-- the first repeated name is reported; with different types as well; on a property field as well (the
+check precedes `PropertyFieldWithParameters`, an accumulated error of a later check) -/
+example : rejectsWith [.schema "Q", tyQ [edgeA [⟨"y", intTy, none⟩, ⟨"x", intTy, none⟩, ⟨"x", strTy, none⟩, ⟨"y", intTy, none⟩]], tyA]
+    = some [.duplicateFieldParameterDefinition "Q" "a" "x"] := by decide
+example : rejectsWith (withB [obj "B" [] [⟨"x", intTy, [⟨"p", intTy, none⟩, ⟨"p", intTy, none⟩]⟩]])
+    = some [.duplicateFieldParameterDefinition "B" "x" "p"] := by decide
+/-- per field, the parameter check comes before the insertion of the field: a repeated field whose
+second declaration repeats a parameter reports the parameter; an earlier repeated field wins -/
+example : rejectsWith (withB [obj "B" [] [fx, ⟨"x", intTy, [⟨"p", intTy, none⟩, ⟨"p", intTy, none⟩]⟩]])
+    = some [.duplicateFieldParameterDefinition "B" "x" "p"] := by decide
+example : rejectsWith (withB [obj "B" [] [fx, fx, ⟨"e", named "B", [⟨"p", intTy, none⟩, ⟨"p", intTy, none⟩]⟩]])
+    = some [.duplicateFieldDefinition "B" "x"] := by decide
+
 /- History — F-C19-1 (listed here as "F-28" at the time), repaired: an enum constant as (part of)
 the default value of an edge parameter made `Type::is_valid_value` hit
 `unimplemented!("enum values are not currently supported")`; the witness was
@@ -191,25 +270,6 @@ example : rejectsWith [.schema "Q",
     = some [.invalidDefaultValue "Q" "a" "p" (.list (.named "Int" false) false)] := by decide
 example : NoKnownSchemaTrigger
     [.schema "Q", tyQ [edgeA [⟨"p", .named "Int" false, some (.val (.enum [70]))⟩]], tyA] = true := by decide
-/-- `enum` / `union` / `input` definitions are outside the supported constructs (`unimplemented!`). -/
-theorem panics_unsupported : (Schema.new (small ++ [.unsupported "E"])).panicSite? = some .unsupportedDef := by decide
-
-/-- Hence the unguarded statement is false. -/
-theorem schema_total_false : ¬ ∀ doc : Doc, (Schema.new doc).panicSite? = none := by
-  intro h
-  have := h (.schema "Q" :: small)
-  rw [panics_dup_schema_block] at this
-  cases this
-
-/-- Every witness violates the guard (the guard excludes them all) … -/
-example : NoKnownSchemaTrigger (.schema "Q" :: small) = false := by decide
-example : NoKnownSchemaTrigger [tyQ [edgeA []], tyA] = false := by decide
-example : NoKnownSchemaTrigger (small ++ [.scalar "Int"]) = false := by decide
-example : NoKnownSchemaTrigger (small ++ [.directive "d", .directive "d"]) = false := by decide
-example : NoKnownSchemaTrigger (small ++ [.scalar "Date", .scalar "Date"]) = false := by decide
-/-- … and 30 list levels are still fine. -/
-example : accepts [.schema "Q", tyQ [edgeA []],
-    .type { name := "A", isInterface := false, implements := [], fields := [⟨"x", deep 30, []⟩] }] = true := by decide
 
 end Witnesses
 
@@ -283,6 +343,8 @@ end TF.C19
 #print axioms TF.C19.schema_accepts_iff
 #print axioms TF.C19.accepts_iff
 #print axioms TF.C19.rejects_with_errors
+#print axioms TF.C19.first_loop_total
+#print axioms TF.C19.accepted_params_distinct
 #print axioms TF.C19.check_transitive_iff
 #print axioms TF.C19.check_required_fields_iff
 #print axioms TF.C19.check_narrowing_iff
@@ -290,13 +352,6 @@ end TF.C19
 #print axioms TF.C19.check_root_iff
 #print axioms TF.C19.field_origins_cycle_iff
 #print axioms TF.C19.schema_total_false
-#print axioms TF.C19.panics_dup_schema_block
-#print axioms TF.C19.panics_no_schema_block
-#print axioms TF.C19.panics_query_type_undefined
-#print axioms TF.C19.panics_query_type_interface
-#print axioms TF.C19.panics_builtin_redefined
-#print axioms TF.C19.panics_dup_directive
-#print axioms TF.C19.panics_dup_scalar
 #print axioms TF.C19.panics_deep_field_type
 #print axioms TF.C19.panics_unsupported
 #print axioms TF.C19.small_valid
